@@ -95,3 +95,37 @@ def config_mutations(ctx, prog):
                 fname = fields[idx]['name'] if idx < len(fields) else f'#{idx}'
                 out.append((b['id'], owner, fname, st[:140], b['file'], b['line']))
     return out
+
+
+_OW = {}
+
+
+def output_writer(ctx, prog=None):
+    """The compare-before-write writer of the CLI, found by what it does — whatever it is called (`check_write_file` on the pinned
+    tree): the one hand-written function of cli/src/writer.rs whose own body both reads a file whole (`fs::read` …) and writes one
+    (`fs::write` / `File::create` / `OpenOptions::open`).  Returns {'mir': 'writer::<name>', 'name': <name>, 'file': …}."""
+    import re
+    from . import cg
+    key = id(ctx)
+    if key in _OW:
+        return _OW[key]
+    prog = prog or cg.Program(ctx.mirq('all'))
+    RD = re.compile(r'std::fs::read(_to_string)?$|std::io::Read::read_to_(end|string)$')
+    WR = re.compile(r'std::fs::write$|std::fs::File::create(_new)?$|OpenOptions::open$|std::io::Write::write_all$')
+    cands = []
+    for k, b in prog.bodies.items():
+        if b['kind'] != 'fn' or not str(b.get('file', '')).endswith('cli/src/writer.rs') or b.get('derived'):
+            continue
+        callees = [c['callee'] for c in b['calls']]
+        if any(RD.search(x) for x in callees) and any(WR.search(x) for x in callees):
+            cands.append(b)
+    named = [b for b in cands if b['id'].split('::')[-1] == 'check_write_file']
+    if len(cands) > 1 and len(named) == 1:
+        cands = named       # the name the rules were written against breaks a tie: any other reader-and-writer is then judged by W1
+    if len(cands) != 1:
+        from . import core
+        raise core.Incomplete(f'cli/src/writer.rs: the compare-before-write writer (a function that reads a file whole and writes one) expected once, found {[b["id"] for b in cands]}')
+    b = cands[0]
+    _OW.clear()
+    _OW[key] = {'mir': b['id'], 'name': b['id'].split('::')[-1], 'file': 'cli/src/writer.rs', 'line': b['line']}
+    return _OW[key]
